@@ -1,1 +1,102 @@
-/-! Property theorems for C18 (statements + proofs by reference to `Proof/`). Not built yet. -/
+import GraafVerif.Proof.DistMatrixThm
+/-!
+# C18 — DistanceMatrix metrics equal their definitions
+
+Only statements and their proofs-by-reference live here.  The model (`Model/DistMatrix.lean`)
+is tied to `src/algo/distance_matrix.rs` by the correspondence run; `WF m` (`Spec/DistMatrix.lean`)
+is the property's quantifier: `order ≥ 1`, `order²` entries, every entry `≤ infinity`.
+Weights are `Int` (covers `isize` and `usize`: the code only compares and copies weights).
+
+"Ascending list of the vertices with P" is stated as: the list is strictly ascending
+(`Pairwise (· < ·)`) and `u ∈ list ↔ P u` — this determines the list uniquely
+(`sorted_ext` below).
+-/
+namespace GraafVerif.C18
+open GraafVerif.DistMatrix
+
+/-- eccentricities(): one value per vertex, the maximum entry of its row
+(attained in the row, and no entry of the row exceeds it; entries read through `m[(u, v)]`). -/
+def EccSpec (m : DM) : Prop :=
+  (ecc m).length = m.order ∧
+  ∀ u, u < m.order → ∃ e, (ecc m)[u]? = some e ∧
+    (∃ v, v < m.order ∧ get m u v = .ok e) ∧
+    (∀ v, v < m.order → ∃ x, get m u v = .ok x ∧ x ≤ e)
+
+/-- diameter() is the maximum eccentricity. -/
+def DiameterSpec (m : DM) : Prop :=
+  (∃ u, u < m.order ∧ (ecc m)[u]? = some (diameter m)) ∧ ∀ e ∈ ecc m, e ≤ diameter m
+
+/-- center() is the ascending list of the vertices whose eccentricity is minimal. -/
+def CenterSpec (m : DM) : Prop :=
+  (center m).Pairwise (· < ·) ∧
+  ∀ u, u ∈ center m ↔ ∃ e, (ecc m)[u]? = some e ∧ ∀ e' ∈ ecc m, e ≤ e'
+
+/-- periphery() is the ascending list of the vertices whose eccentricity equals the diameter. -/
+def PeripherySpec (m : DM) : Prop :=
+  (periphery m).Pairwise (· < ·) ∧ ∀ u, u ∈ periphery m ↔ (ecc m)[u]? = some (diameter m)
+
+/-- is_connected() is true iff no eccentricity equals infinity (equivalently, since entries do
+not exceed infinity: iff no entry of the matrix is infinite). -/
+def ConnectedSpec (m : DM) : Prop :=
+  (isConnected m = true ↔ ∀ e ∈ ecc m, e ≠ m.infinity) ∧
+  (isConnected m = true ↔ ∀ u v, u < m.order → v < m.order → get m u v ≠ .ok m.infinity)
+
+/-- Indexing by `(u, v)` addresses row `u`, column `v`: it reads the `v`-th element of the `u`-th
+of the rows `eccentricities()` takes its maxima over, and a write through `(u, v)` changes
+exactly that cell. -/
+def IndexSpec (m : DM) : Prop :=
+  ∀ u v, u < m.order → v < m.order →
+    (∃ x r, get m u v = .ok x ∧ (chunks m.order m.dist)[u]? = some r ∧ r[v]? = some x) ∧
+    ∀ w, ∃ m', set m u v w = .ok m' ∧ m'.order = m.order ∧ m'.infinity = m.infinity ∧
+      m'.dist.length = m.dist.length ∧ get m' u v = .ok w ∧
+      ∀ u' v', u' < m.order → v' < m.order → (u', v') ≠ (u, v) → get m' u' v' = get m u' v'
+
+/-- new(order, infinity) is an order × order matrix filled with infinity
+(and panics for order 0, as the API documents). -/
+def NewSpec : Prop :=
+  (∀ inf, new 0 inf = .panic) ∧
+  ∀ order inf, 1 ≤ order → order * order ≤ usizeMax →
+    ∃ m, new order inf = .ok m ∧ m.order = order ∧ m.infinity = inf ∧ WF m ∧
+      ∀ u v, u < order → v < order → get m u v = .ok inf
+
+/-- Full statement of C18. -/
+def Statement : Prop :=
+  (∀ m : DM, WF m →
+    EccSpec m ∧ DiameterSpec m ∧ CenterSpec m ∧ PeripherySpec m ∧ ConnectedSpec m ∧ IndexSpec m) ∧
+  NewSpec
+
+theorem ecc_spec (m : DM) (hw : WF m) : EccSpec m := DistMatrix.ecc_spec' hw
+theorem diameter_spec (m : DM) (hw : WF m) : DiameterSpec m := DistMatrix.diameter_spec' hw
+theorem center_spec (m : DM) (hw : WF m) : CenterSpec m := DistMatrix.center_spec' hw
+theorem periphery_spec (m : DM) (hw : WF m) : PeripherySpec m := DistMatrix.periphery_spec' hw
+theorem connected_spec (m : DM) (hw : WF m) : ConnectedSpec m := DistMatrix.connected_spec' hw
+theorem index_spec (m : DM) (hw : WF m) : IndexSpec m := DistMatrix.index_spec' hw
+theorem new_spec : NewSpec := DistMatrix.new_spec'
+
+/-- The subtle case of `center`: when every eccentricity is infinite the running minimum never
+drops below its initial value and the `Equal` branch collects EVERY vertex — which is what the
+property demands (all vertices are then minimal). -/
+theorem center_all_infinite (m : DM) (hw : WF m) (h : ∀ e ∈ ecc m, e = m.infinity) :
+    center m = List.range m.order := DistMatrix.center_all_inf hw h
+
+/-- A strictly ascending list is determined by its members: the two `…Spec`s above pin the
+returned lists down uniquely. -/
+theorem sorted_ext (l₁ l₂ : List Nat) (h₁ : l₁.Pairwise (· < ·)) (h₂ : l₂.Pairwise (· < ·))
+    (h : ∀ x, x ∈ l₁ ↔ x ∈ l₂) : l₁ = l₂ := DistMatrix.sorted_ext' l₁ l₂ h₁ h₂ h
+
+theorem statement_holds : Statement :=
+  ⟨fun m hw => ⟨ecc_spec m hw, diameter_spec m hw, center_spec m hw, periphery_spec m hw,
+    connected_spec m hw, index_spec m hw⟩, new_spec⟩
+
+/-! Non-vacuity: an asymmetric 3×3 matrix with an infinite row meets `WF`; its metrics. -/
+def ex1 : DM := ⟨[0, 5, 2,  3, 0, 1,  9, 9, 0], 9, 3⟩
+example : WF ex1 := ⟨by decide, by decide, by decide⟩
+example : ecc ex1 = [5, 3, 9] ∧ diameter ex1 = 9 ∧ center ex1 = [1] ∧ periphery ex1 = [2] ∧
+    isConnected ex1 = false := by decide
+/-- ties among minima and maxima -/
+example : center ⟨[0, 4, 4, 0], 9, 2⟩ = [0, 1] ∧ periphery ⟨[0, 4, 4, 0], 9, 2⟩ = [0, 1] := by decide
+/-- all eccentricities infinite, 1×1 -/
+example : WF ⟨[7], 7, 1⟩ ∧ center ⟨[7], 7, 1⟩ = [0] := ⟨⟨by decide, by decide, by decide⟩, by decide⟩
+example : new 3 7 = .ok ⟨List.replicate 9 7, 7, 3⟩ := by decide
+
+end GraafVerif.C18
